@@ -153,8 +153,8 @@ pub fn run(path: &str) -> i32 {
                         .map(|a| a.iter().filter_map(|x| x.as_u64()).map(|x| x as u32).collect())
                         .unwrap_or_default();
                     for th in [false, true] {
-                        let adv = AdvDoc { answers: crate::c03::answers(th) };
-                        if ans.iter().all(|c| (*c as usize) < adv.answers.len()) {
+                        let adv = AdvDoc::new(crate::c03::answers(th));
+                        if ans.iter().all(|c| (*c as usize) < adv.answers.len() + 2) {
                             tau_engine::verif::set_script(ans.clone());
                             let res = catch(|| r.matches(&adv));
                             let _ = tau_engine::verif::take_trace();
